@@ -656,6 +656,74 @@ func init() {
 			emitStrs("repeatCalls", "`kfRepeat`: every call of `strings.Repeat` in the closure (the guarded quantities are the ones used)", calls, len(calls) > 0)
 		}
 
+		// ---- {bar}: the length cap in front of the block-writing loop of termunicode.BarWrite
+		hasBarCap := emitConst("maxBarLen", drawing, "maxBarLen")
+		{
+			fd := c.Func(drawing, "kfBar")
+			t := newC08tr(c, []string{"maxLen"}, nil)
+			if hasBarCap {
+				t.consts["maxBarLen"] = "maxBarLen"
+			}
+			res := "false"
+			var uses []string
+			if fd == nil || fd.Body == nil {
+				t.fail("function kfBar not found")
+			} else {
+				is := c08FindIf(fd.Body.List, func(is *ast.IfStmt) bool { return c.c08Returns(is, "stageArgError(ErrValue") })
+				if is == nil || is.Init != nil || is.Else != nil {
+					t.fail("no `if … { return stageArgError(ErrValue, …) }` in kfBar")
+				} else {
+					res = t.cond(is.Cond)
+				}
+				uses = c.c08Calls(c08Closure(fd), "termunicode.BarWrite")
+			}
+			emitDef("barLenGuard", "`kfBar`: the condition under which the builder rejects its constant length argument", []string{"maxLen"}, "", "Bool", t, res)
+			emitStrs("barCalls", "`kfBar`: every call of `termunicode.BarWrite` in the run-time closure", uses, len(uses) > 0)
+		}
+
+		// ---- {color}: the name table of color.LookupColorByName
+		{
+			const col = "pkg/color/coloring.go"
+			c.Fingerprint(col, "LookupColorByName")
+			c.Fingerprint(col, "Wrap")
+			cl, _ := c.Var(col, "colorMap").(*ast.CompositeLit)
+			var parts []string
+			ok := cl != nil
+			if ok {
+				for _, el := range cl.Elts {
+					kv, isKV := el.(*ast.KeyValueExpr)
+					if !isKV {
+						ok = false
+						break
+					}
+					k, ok1 := StringLit(kv.Key)
+					v, ok2 := c14Str(c, []string{col}, kv.Value, 0)
+					if !ok1 || !ok2 {
+						ok = false
+						break
+					}
+					parts = append(parts, fmt.Sprintf("(%s, %s)", leanStr(k), c20Bytes(v)))
+				}
+			}
+			if !ok || len(parts) == 0 {
+				sb.WriteString(untranslatable("colorMap"))
+			} else {
+				fmt.Fprintf(&sb, "/-- `colorMap` of %s (name, escape sequence) -/\ndef colorMap : List (String × List UInt8) := [%s]\n\n", col, strings.Join(parts, ",\n  "))
+			}
+			// LookupColorByName must look the lower-cased name up
+			fd := c.Func(col, "LookupColorByName")
+			var l []string
+			if fd != nil && fd.Body != nil {
+				ast.Inspect(fd.Body, func(n ast.Node) bool {
+					if ix, isIx := n.(*ast.IndexExpr); isIx {
+						l = append(l, c.Print(ix))
+					}
+					return true
+				})
+			}
+			emitStrs("colorLookup", "`LookupColorByName`: the table look-ups", l, fd != nil)
+		}
+
 		// ---- {substr}: index clamping in front of s[left:right]
 		{
 			body := c08Closure(c.Func(strs, "kfSubstr"))
